@@ -2,6 +2,7 @@
 Stage 1 PPPoE gate (internal/pppoe + internal/ppp + pkg/ppp), stage 2 IPoE gate (internal/ipoe with the real local
 DHCP providers and allocator registry), stage 3 RADIUS username-fallback gate + AAA verdict mapping."""
 import itertools
+import random
 
 ID = "C03"
 HARNESSES = [
@@ -16,16 +17,23 @@ HARNESSES = [
     dict(name="radius", pkg="./plugins/auth/radius/", test="TestVerifC03Radius", timeout=300,
          files=[("plugins/auth/radius/zz_verif_c03_radius_test.go", "harness/C03/zz_verif_c03_radius_test.go")]),
 ]
-# every C03 finding is fixed in /repo (KNOWN_FINDINGS.txt): the only variant is what /repo HEAD does; a regression to an old
-# defect is a VIOLATION.  (The driver still accepts "defective" = the code before the fixes, for the _refuted witnesses.)
-VARIANTS = ["repaired", "defective"]   # defective = /repo HEAD without fixes/C03_pppoe_lcp_down_teardown.patch (known:)
+# the first variant is the repaired code; the others are /repo HEAD with the open (known:) PPPoE findings of
+# KNOWN_FINDINGS.txt, in every combination so that applying one fix patch keeps the check silent.  A regression to a fixed
+# defect is a VIOLATION.
+VARIANTS = ["repaired", "defective", "noteardown", "heldanswer"]   # defective = /repo HEAD (both open findings); the other two: one of them fixed
 MODEL_NEEDS_IMPL = True   # only for the FSM table flavour reported by the harness (see notes/C03.md)
-RULE = ("pppoe: (a) systematic: each of 12 prefixes reaching a distinct phase/FSM situation (fresh, LCP open, auth pending, "
+RULE = ("pppoe: (a) systematic: each of 16 prefixes reaching a distinct phase/FSM situation (fresh, LCP open, auth pending, "
         "network, open, renegotiated, renegotiated+pending, re-authenticating, rejected, terminated, static address, "
-        "PAP negotiated) x every single event of the alphabet (63 frame kinds over LCP/PAP/CHAP/IPCP/IPv6CP/IPv6/unknown "
+        "PAP negotiated, four refused/rewritten Authentication-Protocol situations) x every single event of the 97-event "
+        "alphabet (69 frame kinds over LCP/PAP/CHAP/IPCP/IPv6CP/IPv6 incl. DHCPv6 SOLICIT/REQUEST/unknown "
         "protocols, AAA accept/accept+static/reject/error for request ordinals {empty,1,2,3,unknown}, 4 timers, PADT, dead "
-        "peer, dataplane completion, re-open) x 3 probe suffixes; (b) random walks over the same alphabet, 1-3 "
-        "subscribers, pool of 0-2 addresses, biased towards progress. "
+        "peer, dataplane completion, re-open) x 3 probe suffixes; (b) forced overlaps: R: every frame kind processed under "
+        "the session lock while a matched answer waits for it, S: PADT / dead peer / every timer / frames / the other "
+        "subscriber's PADT handled completely while a matched answer is held before the lock, each x 4 answers x situations "
+        "with a request outstanding; (c) IPv6 profile: IA_NA / PD pool sizes {0,1,2,16} (one of the two large), macro "
+        "scripts over three subscribers (open, DHCPv6 sequences, teardown, renegotiation + re-authentication, re-PADR, "
+        "IPv6CP close/reopen); (d) random walks over the alphabet, 1-3 subscribers, pool of 0-2 addresses, biased towards "
+        "progress. "
         "ipoe: 15 prefixes (nothing, pending by DISCOVER/REQUEST/SOLICIT/all four, approved, approved with late packets, "
         "created, bound v4/v6/both, rejected, second attempt, released, dataplane add failed) x every event (DISCOVER, "
         "REQUEST, RELEASE good/spoofed, server-sourced OFFER/ACK/NAK, SOLICIT, REQUEST6, RENEW, RELEASE6, AAA accept/reject/"
@@ -38,8 +46,9 @@ RULE = ("pppoe: (a) systematic: each of 12 prefixes reaching a distinct phase/FS
 TRUSTED = ["PPP option contents are abstracted to ack/nak/reject quality; addresses to {none,pool,static,fallback}",
            "timers are events: FSM.Timeout()/handleCHAPTimeout() are called by the harness, real timers never fire",
            "one handler at a time (the per-packet goroutines of the real receive loops are sequentialised)"]
-ASSUMPTIONS = ["ipoe: unified session mode, DHCP server mode; when ResolveV6 fails the model stops predicting and the extracted monitor judges the implementation's trace",
-               "IA_PD is compared as a token derived next to each IPv6 address dataplane call; PD pool accounting is not modelled",
+ASSUMPTIONS = ["ipoe: unified session mode, DHCP server mode",
+               "ipoe: IA_PD is compared as a token derived next to each IPv6 address dataplane call (PD pool never exhausted); pppoe: IA_NA and PD leases are modelled and their pool counts compared, except the local provider's own allocation when neither an address nor a prefix can be resolved (the generator keeps one of the two pools large)",
+               "pppoe: a superseded incarnation (new PADR over a live session) stays in the session-id index; the model forgets it (same pool counts), frames are sent to the newest session id only",
                "AAA request ids are unique (uuid) — the model numbers them 1,2,3...",
                "LAC hand-off (lacTrigger) and session restore/HA paths are not exercised"]
 
@@ -135,8 +144,102 @@ def gen_pppoe_raced():
     return cases
 
 
+V6POOLS = [(2, 0, 16), (2, 1, 16), (2, 2, 16), (1, 1, 16), (2, 16, 0), (2, 16, 1), (2, 16, 2), (3, 16, 16)]
+
+
+def at(i, evs):
+    return [e.replace(":0:", ":%d:" % i) for e in evs]
+
+
+def gen_pppoe_v6(rng, tier):
+    """IPv6 profile: IA_NA pool / PD pool sizes down to 0 and 1 (one of the two stays large: when NEITHER an address nor
+    a prefix can be resolved the local provider allocates on its own, outside the registry - not modelled).  Scripts of
+    macro steps over three subscribers: full open (PADR, LCP, CHAP, answer, NCPs), DHCPv6 SOLICIT/REQUEST sequences,
+    PADT / dead peer, LCP renegotiation with re-authentication, re-PADR over a live session, IPv6CP close and reopen.
+    A request's ordinal depends on whether the renegotiation survives (it does not once the link-end teardown is in), so
+    every answer is sent for each ordinal it may have; only the pending one is taken."""
+    cases = []
+    full = lambda i: ["o:%d" % i] + at(i, lcp_up(0)) + [fr(i, "chap", "resp")]
+    for p4, p6, ppd in V6POOLS:
+        head = "pppoe %d/%d/%d " % (p4, p6, ppd)
+        # exhaustion, late resolution after a release, teardown of everything
+        ev = []
+        for i in range(3):
+            ev += full(i) + ["a:%d:acc" % (i + 1)] + at(i, ncp_up(0)) + [fr(i, "ip6", "dh_sol")]
+        ev += [fr(0, "ip6", "dh_req"), "x:0", fr(1, "ip6", "dh_sol"), fr(2, "ip6", "dh_req"), fr(1, "ip6", "dh_req"),
+               fr(2, "ip6", "dh_sol"), "d:1", fr(2, "ip6", "dh_req"), "x:2"]
+        cases.append(head + " ".join(ev))
+        n = 60 if tier == "quick" else 700
+        for _ in range(n):
+            lo = hi = 0
+            opened = [False] * 3
+            ev = []
+            for _ in range(rng.randint(3, 9)):
+                i = rng.randrange(3)
+                r = rng.random()
+                if not opened[i] or r < 0.08:
+                    ev += full(i)
+                    lo, hi = lo + 1, hi + 1
+                    kind = rng.choice(["acc"] * 7 + ["accip", "rej", "err"])
+                    ev += ["a:%d:%s" % (k, kind) for k in range(lo, hi + 1)]
+                    if kind in ("acc", "accip"):
+                        ev += at(i, ncp_up(0)) if rng.random() < 0.8 else at(i, ncp_up(0)[2:])
+                        opened[i] = True
+                    else:
+                        opened[i] = False
+                elif r < 0.50:
+                    ev += [fr(i, "ip6", k) for k in rng.choice([["dh_sol"], ["dh_req"], ["dh_sol", "dh_req"],
+                                                               ["dh_sol", "dh_sol"], ["dh_req", "dh_req"],
+                                                               ["dh_sol", "dh_req", "dh_req"]])]
+                elif r < 0.65:
+                    ev.append(rng.choice(["x:%d", "d:%d"]) % i)
+                    opened[i] = False
+                elif r < 0.85:        # renegotiation and re-authentication
+                    ev += at(i, lcp_up(0)) + [fr(i, "chap", "resp")]
+                    hi += 1
+                    kind = rng.choice(["acc"] * 6 + ["accip", "rej"])
+                    ev += ["a:%d:%s" % (k, kind) for k in range(lo + 1, hi + 1)]
+                    if rng.random() < 0.8:
+                        ev += at(i, ncp_up(0))
+                elif r < 0.93:        # IPv6CP closed by the peer and reopened
+                    ev += [fr(i, "ip6cp", "treq"), fr(i, "ip6", "dh_sol"), fr(i, "ip6cp", "creq_ok"), fr(i, "ip6cp", "cack")]
+                else:
+                    ev.append(rng.choice(["v:ok", "t:%d:ip6cp" % i, "t:%d:lcp" % i, fr(i, "ip6", "rs")]))
+            cases.append(head + " ".join(ev))
+    return cases
+
+
+def gen_pppoe_parked():
+    """S:<event>&<answer>: the AAA answer has been matched to its session by the pending request id and is held there
+    (before it asks for the session lock) while another event is handled completely: PADT, dead peer, every timer,
+    frames, the other subscriber's PADT.  (Not a new PADR of the same subscriber: the superseded incarnation stays in
+    the session-id index and is outside the model.)"""
+    o = ["o:0"]
+    pend = o + lcp_up(0) + [fr(0, "chap", "resp")]
+    opn = pend + ["a:1:acc"] + ncp_up(0)
+    situations = [
+        (pend, 1),
+        (opn + [fr(0, "lcp", "creq_ok"), fr(0, "lcp", "cack"), fr(0, "chap", "resp")], 2),      # re-authentication pending
+        (o + [fr(0, "lcp", "cnak_pap"), fr(0, "lcp", "creq_ok"), fr(0, "lcp", "cack"), fr(0, "pap", "req")], 1),
+        (["o:1"] + pend, 1),                                                                    # a second subscriber present
+        # IPv6 address and prefix bound by DHCPv6, then re-authentication pending
+        (opn + [fr(0, "ip6", "dh_req"), fr(0, "lcp", "creq_ok"), fr(0, "lcp", "cack"), fr(0, "chap", "resp")], 2),
+    ]
+    firsts = ["x:0", "d:0", "t:0:lcp", "t:0:chap", "t:0:ipcp", "t:0:ip6cp", "x:1", "d:1", "v:ok",
+              fr(0, "lcp", "treq"), fr(0, "lcp", "creq_ok"), fr(0, "lcp", "echoreq"), fr(0, "chap", "resp"), fr(0, "ip6", "dh_req")]
+    probes = [[fr(0, "ipcp", "creq_ok"), fr(0, "ip6cp", "creq_ok"), fr(0, "ip6", "dh_sol"), "x:0", "o:0"] + lcp_up(0) + [fr(0, "chap", "resp")],
+              ["o:0"] + lcp_up(0) + [fr(0, "chap", "resp"), "a:2:acc", "a:3:acc", fr(0, "ipcp", "creq_ok")]]
+    cases = []
+    for p, k in situations:
+        for e in firsts:
+            for a in ("acc", "accip", "rej", "err"):
+                for pr in probes:
+                    cases.append("pppoe 2/2/2 " + " ".join(p + ["S:%s&a:%d:%s" % (e, k, a)] + pr))
+    return cases
+
+
 def gen_pppoe(rng, tier, budget):
-    cases = gen_pppoe_raced()
+    cases = gen_pppoe_raced() + gen_pppoe_parked() + gen_pppoe_v6(random.Random(rng.random()), tier)
     pf = prefixes()
     for name, p in pf.items():
         for e in alphabet():
@@ -252,7 +355,16 @@ def gen_ipoe(rng, tier, budget):
                 evs.append(rng.choice(["v:ok"] * 5 + ["v:fail"]))
             else:
                 evs.append("Y:%d:%s" % (i, rng.choice(["offer", "ack", "nak"])))
-        cases.append("ipoe %d 16 " % p4 + " ".join(evs))
+        # IA_NA pool of 0 / 1 / 2 addresses in a quarter of the walks (the PD pool stays large: ResolveV6 then resolves
+        # a prefix only and the provider answers nothing for the address, d5fadd1)
+        p6 = rng.choice([16, 16, 16, 16, 16, 16, 0, 1, 2]) if ns > 1 or rng.random() < 0.5 else 16
+        cases.append("ipoe %d %d " % (p4, p6) + " ".join(evs))
+    # IPv6 pool exhaustion, systematically: every prefix x v6 events with 0 and 1 addresses, two subscribers
+    for p6 in (0, 1):
+        for name, p in ipoe_prefixes().items():
+            for tail in (["S:0", "Q:0", "S:1", "a:1:cur:acc", "v:ok", "v:ok", "Q:1", "X:0", "Q:1", "S:1"],
+                         ["S:1", "a:1:cur:acc", "v:ok", "Q:1", "S:0", "Q:0", "X:1", "S:0", "Q:0", "N:0"]):
+                cases.append("ipoe 2 %d " % p6 + " ".join(p + tail))
     return cases
 
 
@@ -344,11 +456,18 @@ def classify(case, impl, model):
 def signature(case, impl, models):
     t = case.split()
     rep, dfc = models["repaired"], models["defective"]
+    if t[0] == "pppoe":
+        # the implementation equals one of the defect variants: classify by the first step where it leaves the
+        # repaired model
+        dfc = impl
     k = first_div(rep, dfc)
     if t[0] == "pppoe":
         ev = t[2:]
         if k >= len(ev):
             return "none"
+        # an answer matched to a session that was torn down before the answer got the session lock is still applied
+        if ev[k].startswith("S:"):
+            return "pppoe-aaa-answer-after-teardown"
         # repaired ends the PPPoE session when LCP leaves Opened on an authenticated link; HEAD keeps it with its lease
         # and dataplane session while the new link is unauthenticated
         sd = steps(dfc)
